@@ -372,9 +372,10 @@ func c01regression() []Spec {
 	// fold then scan
 	out = append(out, Spec{Nodes: []PNode{src(129, 2), {Op: "fold", In: []int{0}, Salt: 4}, {Op: "writerfunc", In: []int{1}}, {Op: "scan", In: []int{2}}}})
 	// Reduce whose merge inputs straddle the vector size: every producer sends each output shard
-	// several hundred distinct keys, so the merging reader refills its input buffers many times
+	// several hundred distinct keys, mostly not shared with the other producers (identical streams
+	// advance in step and hide ordering mistakes), so the merging reader refills its buffers out of step
 	// (index 27: also run on the distributed executor in the quick tier)
-	out = append(out, Spec{Nodes: []PNode{{Op: "readerfunc", Shards: 3, Rows: 9000, Out: []string{"int", "int64"}, Salt: 12, Mod: 4000, Chunks: []int{97}}, {Op: "reduce", In: []int{0}, Fold: "sum", Shards: 2}}})
+	out = append(out, Spec{Nodes: []PNode{{Op: "readerfunc", Shards: 3, Rows: 1500, Out: []string{"int", "int64"}, Salt: 12, Mod: 20000, Chunks: []int{97}}, {Op: "reduce", In: []int{0}, Fold: "sum", Shards: 2}}})
 	return out
 }
 
